@@ -428,6 +428,77 @@ def r5_error_branch(run):
               "handler no longer returns an error response", h.loc())
 
 
+def r6_entity_category_tuples(run):
+    run.rule("R6", "entity categories: the attributes of a composite (tuple) "
+             "category key are released only if EVERY member category is among "
+             "the SP's categories - after any member that is not, the "
+             "attribute list is emptied before it is used")
+    m = run.model
+    fi = m.func("assertion.post_entity_categories")
+    cfg = cfg_of(fi, m)
+    ecs = [nd.ast.targets[0].id for nd in cfg.by_kind("stmt")
+           if isinstance(nd.ast, ast.Assign) and
+           isinstance(nd.ast.targets[0], ast.Name) and
+           isinstance(nd.ast.value, ast.Call) and
+           call_name(nd.ast.value) == "entity_categories"]
+    run.require(len(ecs) == 1, "post_entity_categories: the SP's entity "
+                "categories are no longer looked up")
+    ecs = ecs[0]
+    loops = []
+    for lp in cfg.by_kind("foriter"):
+        it = lp.ast.iter
+        if not isinstance(it, ast.Name) or not isinstance(lp.ast.target, ast.Name):
+            continue
+        if Q("isinstance(%s, tuple)" % it.id) in facts(cfg, lp.id):
+            loops.append(lp)
+    run.floor("R6", "loops over the members of a tuple key", len(loops), 1)
+    from .. import canon
+    for lp in loops:
+        v = lp.ast.target.id
+        mem = Q("%s in %s" % (v, ecs))[0]
+        inside = {n.id for n in cfg.nodes
+                  if n.ast is not None and any(
+                      x is n.ast for x in ast.walk(lp.ast))}
+        fails = []
+        for n in cfg.nodes:
+            if n.kind in ("true", "false"):
+                for conj in canon._dnf(n.ast, n.kind == "true"):
+                    if any(canon.ctext(e) == mem and p is False
+                           for e, p in conj) and len(conj) >= 1 and \
+                            all(canon.ctext(e) == mem for e, p in conj):
+                        fails.append(n.id)
+            elif n.kind == "exc" and isinstance(n.ast, ast.Assert) and \
+                    canon.query(unparse(n.ast.test)) == (mem, True):
+                fails.append(n.id)
+        # what the branch assigns and where it is consumed
+        resets = [n.id for n in cfg.by_kind("stmt")
+                  if isinstance(n.ast, ast.Assign) and
+                  isinstance(n.ast.targets[0], ast.Name) and
+                  isinstance(n.ast.value, (ast.List, ast.Tuple)) and
+                  not n.ast.value.elts]
+        rnames = {cfg.nodes[r].ast.targets[0].id for r in resets}
+        uses = [n.id for n in cfg.by_kind("foriter")
+                if isinstance(n.ast.iter, ast.Name) and n.ast.iter.id in rnames]
+        key = "%s::for %s in %s" % (fi.qual, v, unparse(lp.ast.iter))
+        if not fails or not uses:
+            run.violated("R6", key, "the members of a tuple key are no longer "
+                         "tested against the SP's categories (`%s`)" % mem,
+                         fi.loc(lp.ast))
+            continue
+        other_exc = {n.id for n in cfg.nodes if n.kind == "exc"} - set(fails)
+        wit = None
+        for f in fails:
+            for u in uses:
+                wit = wit or cfg.path(f, u, set(resets) | other_exc)
+        run.check(wit is None, "R6", key,
+                  "a member outside the SP's categories empties the list on "
+                  "every path to its use",
+                  "after a member category the SP does not have, the "
+                  "attributes of the composite key can still be released (one "
+                  "matching member suffices)", fi.loc(lp.ast),
+                  witness=cfg.describe_path(wit) if wit else None)
+
+
 def check(run):
     run.explanation = (
         "C07: typestate raw->filtered over every Assertion(identity) "
@@ -442,3 +513,4 @@ def check(run):
     r3_filters_narrow(run)
     r4_policy_filter(run)
     r5_error_branch(run)
+    r6_entity_category_tuples(run)
